@@ -62,3 +62,20 @@ Proof.
   rewrite (container_roundtrip hash evalid tvalid c Hc H32 H64 blocks nframes rbuf2 sched2 Hb Hf Hr2 Hr28). reflexivity.
 Qed.
 Print Assumptions C06_whole_stream_source_chunking_is_invisible.
+
+(* ... and the same for a stream with RANGE-coded blocks (block sizes up to 128 MiB) *)
+From KV Require Import Model.ContainerG Proofs.ContainerGProofs Proofs.EndToEndRangeFits.
+Theorem C06_range_stream_source_chunking_is_invisible : forall (hash : list N -> N) (evalid tvalid : N -> bool) c,
+  cfg_ok evalid tvalid c -> h_etype c = RANGE_TYPE -> (h_bsize c <= 134217728)%N ->
+  (h_ck c = 1%N -> forall l, (hash l < 2 ^ 32)%N) -> (h_ck c = 2%N -> forall l, (hash l < 2 ^ 64)%N) ->
+  forall blocks nframes rbuf1 sched1 rbuf2 sched2,
+  Forall (blk_ok (h_bsize c)) blocks -> (length blocks < nframes)%nat ->
+  (0 < rbuf1)%N -> (rbuf1 mod 8 = 0)%N -> (0 < rbuf2)%N -> (rbuf2 mod 8 = 0)%N ->
+  parse_stream_e hash evalid tvalid nframes rbuf1 sched1 (write_stream_e hash c blocks) =
+  parse_stream_e hash evalid tvalid nframes rbuf2 sched2 (write_stream_e hash c blocks).
+Proof.
+  intros hash evalid tvalid c Hc Het Hbs H32 H64 blocks nframes rbuf1 sched1 rbuf2 sched2 Hb Hf Hr1 Hr18 Hr2 Hr28.
+  rewrite (container_range_roundtrip_128 hash evalid tvalid c blocks nframes rbuf1 sched1 Hc Het Hbs H32 H64 Hb Hf Hr1 Hr18).
+  rewrite (container_range_roundtrip_128 hash evalid tvalid c blocks nframes rbuf2 sched2 Hc Het Hbs H32 H64 Hb Hf Hr2 Hr28). reflexivity.
+Qed.
+Print Assumptions C06_range_stream_source_chunking_is_invisible.
